@@ -744,6 +744,8 @@ package consensus
 //@   invariant loop#3 @distinct 0 <= k && k < l && l < $n ==> txn.FileContractResolutions[k].Parent.ID != txn.FileContractResolutions[l].Parent.ID
 //@   invariant loop#3 @not-revised 0 <= l && l < $n ==> !has(revised, txn.FileContractResolutions[l].Parent.ID)
 //@   invariant loop#3 @earlier-loops (0 <= k && k < len(txn.FileContracts) ==> CVContractValues(txn.FileContracts[k]) && txn.FileContracts[k].ProofHeight >= cheight(ms.base) && sigsOK(ms.base, txn.FileContracts[k], txn.FileContracts[k].RenterPublicKey, txn.FileContracts[k].HostPublicKey)) && (0 <= k && k < len(txn.FileContractRevisions) ==> parentOK(*ms, txn.FileContractRevisions[k].Parent) && has(revised, txn.FileContractRevisions[k].Parent.ID) && txn.FileContractRevisions[k].Parent.V2FileContract.ProofHeight >= cheight(ms.base) && curRev(*ms, txn.FileContractRevisions[k].Parent).ProofHeight >= cheight(ms.base) && CVRevisionValues(curRev(*ms, txn.FileContractRevisions[k].Parent), txn.FileContractRevisions[k].Revision) && txn.FileContractRevisions[k].Revision.ProofHeight >= cheight(ms.base) && sigsOK(ms.base, txn.FileContractRevisions[k].Revision, curRev(*ms, txn.FileContractRevisions[k].Parent).RenterPublicKey, curRev(*ms, txn.FileContractRevisions[k].Parent).HostPublicKey)) && (0 <= k && k < l && l < len(txn.FileContractRevisions) ==> txn.FileContractRevisions[k].Parent.ID != txn.FileContractRevisions[l].Parent.ID)
+//@   split-returns
+//@   ensures @sufficient-new-contracts len(txn.FileContractRevisions) == 0 && len(txn.FileContractResolutions) == 0 && (forall i in 0..len(txn.FileContracts) :: CVContractValues(txn.FileContracts[i]) && txn.FileContracts[i].ProofHeight >= cheight(ms.base) && sigsOK(ms.base, txn.FileContracts[i], txn.FileContracts[i].RenterPublicKey, txn.FileContracts[i].HostPublicKey)) ==> result == nil
 //@   ensures @R-resolution-rules result == nil && 0 <= k && k < len(txn.FileContractResolutions) ==> parentOK(*ms, txn.FileContractResolutions[k].Parent) && (isa(txn.FileContractResolutions[k].Resolution, V2FileContractRenewal) ==> CVRenewalValues(txn.FileContractResolutions[k].Parent.V2FileContract, asa(txn.FileContractResolutions[k].Resolution, V2FileContractRenewal)) && asa(txn.FileContractResolutions[k].Resolution, V2FileContractRenewal).NewContract.ProofHeight >= cheight(ms.base) && sigsOK(ms.base, asa(txn.FileContractResolutions[k].Resolution, V2FileContractRenewal).NewContract, asa(txn.FileContractResolutions[k].Resolution, V2FileContractRenewal).NewContract.RenterPublicKey, asa(txn.FileContractResolutions[k].Resolution, V2FileContractRenewal).NewContract.HostPublicKey) && txn.FileContractResolutions[k].Parent.V2FileContract.RenterPublicKey.VerifyHash(ms.base.RenewalSigHash(asa(txn.FileContractResolutions[k].Resolution, V2FileContractRenewal)), asa(txn.FileContractResolutions[k].Resolution, V2FileContractRenewal).RenterSignature) && txn.FileContractResolutions[k].Parent.V2FileContract.HostPublicKey.VerifyHash(ms.base.RenewalSigHash(asa(txn.FileContractResolutions[k].Resolution, V2FileContractRenewal)), asa(txn.FileContractResolutions[k].Resolution, V2FileContractRenewal).HostSignature)) && (isa(txn.FileContractResolutions[k].Resolution, V2StorageProof) ==> cheight(ms.base) >= txn.FileContractResolutions[k].Parent.V2FileContract.ProofHeight && asa(txn.FileContractResolutions[k].Resolution, V2StorageProof).ProofIndex.ChainIndex.Height == txn.FileContractResolutions[k].Parent.V2FileContract.ProofHeight && ms.base.Elements.containsChainIndex(asa(txn.FileContractResolutions[k].Resolution, V2StorageProof).ProofIndex.Share())) && (isa(txn.FileContractResolutions[k].Resolution, V2FileContractExpiration) ==> cheight(ms.base) > txn.FileContractResolutions[k].Parent.V2FileContract.ExpirationHeight)
 //@   ensures @U-resolved-once result == nil && 0 <= k && k < l && l < len(txn.FileContractResolutions) ==> txn.FileContractResolutions[k].Parent.ID != txn.FileContractResolutions[l].Parent.ID
 //@   ensures @U-not-revised-and-resolved result == nil && 0 <= k && k < len(txn.FileContractRevisions) && 0 <= l && l < len(txn.FileContractResolutions) ==> txn.FileContractRevisions[k].Parent.ID != txn.FileContractResolutions[l].Parent.ID
